@@ -96,7 +96,7 @@ DiffAfter(cfg, e, r) ==
     \cup (IF r.nondet THEN {"nondet"} ELSE {})
 
 -----------------------------------------------------------------------------
-Init == l = 1 /\ d = 0
+Init == l = 1 /\ d = 0 /\ TLCSet(2, {})
 
 IsDef(k) == k <= Len(Trace) /\ Trace[k].ev = "def"
 
@@ -105,13 +105,15 @@ NextDef(k) == k + Trace[k].n + 1   \* a def line records how many case lines fol
 CheckParse(dl, c) ==
   LET cfg == Trace[dl].cfg
       orc == Trace[dl].orc
-      fin == Run(cfg, orc, c.argv, c.disp)
+      ra  == RunA(cfg, orc, c.argv, c.disp)
+      fin == ra.fin
       e   == Outcome(cfg, fin)
       after == "haspre" \in DOMAIN c
       df  == IF e.miss THEN {} ELSE IF after THEN DiffAfter(cfg, e, c.res) ELSE Diff(cfg, e, c.res)
       \* blocks enumerated from a family are the very cases GetoptMC explored; random blocks are new inputs
       bad == IF Trace[dl].sp /\ ~after THEN SpecViolations(cfg, orc, c.argv, fin) ELSE {}
-  IN /\ (e.miss => PrintT(ToJson([k |-> "UNVERIFIABLE", id |-> c.id])))
+  IN /\ TLCSet(2, TLCGet(2) \cup ra.acts)   \* actions of the specification these executions exercised (-workers 1)
+     /\ (e.miss => PrintT(ToJson([k |-> "UNVERIFIABLE", id |-> c.id])))
      /\ (fin.phase = "stuck" => PrintT(ToJson([k |-> "SPECFAIL", id |-> c.id, bad |-> {"stuck"}])))
      /\ (bad # {} => PrintT(ToJson([k |-> "SPECFAIL", id |-> c.id, bad |-> bad])))
      /\ (df # {} => PrintT(ToJson([k |-> "DIFF", id |-> c.id, fields |-> df, exp |-> e])))
@@ -157,5 +159,6 @@ Next == ReadBlock
 Spec == Init /\ [][Next]_vars
 
 (* Acceptance: every line was consumed (high-water mark of l, -workers 1). *)
-AllConsumed == TLCGet(1) = Len(Trace)
+AllConsumed == /\ PrintT(ToJson([k |-> "ACTS", acts |-> TLCGet(2)]))
+               /\ TLCGet(1) = Len(Trace)
 =============================================================================
